@@ -177,7 +177,10 @@ var c02SeqRoutes = []string{"/n/{x}/e", "/a/?{x}", "/{x}/{y}/{z}", "/n/?{m: **}"
 	"/n/{g: /(a|n)e/}-{x}", "/n/{g: /(a|n)e/}-{x}/e",
 	// a bind whose expression is a complete group of its own, a route whose whole regex segment reads the same
 	// once assembled, and both in one route
-	"/e/{q: /([an]+)/}", "/a/{s: /[an]+/}", "/{q: /([an]+)/}/{s: /[an]+/}/n"}
+	"/e/{q: /([an]+)/}", "/a/{s: /[an]+/}", "/{q: /([an]+)/}/{s: /[an]+/}/n",
+	// below one bind segment: a regex subtree that takes the segment and fails further down, then a placeholder
+	// subtree / the match-all leaf that takes over (the values captured above the turning point stay)
+	"/{x}/{r: /[an]+/}/e", "/{x}/{y}/n", "/{x}/{m: **}"}
 
 type c02Ans struct {
 	found  bool
